@@ -406,6 +406,16 @@ class Parser:
             while not self.accept(";"):
                 self.next()
             return None
+        if self.peek()[1] in ("for", "while", "loop", "if", "match") or (self.at_kind("life") and self.at(":", 1)):
+            # block-like expression statement: it ends at its closing brace (Rust does not continue with `(..)` / `[..]`)
+            e = self.parse_primary(False)
+            if self.accept(";"):
+                return ("expr", e, line, True)
+            if self.at("}"):
+                return ("expr", e, line, False)
+            if self.at(".") or self.at("?"):
+                self.err("method call on a block-like statement expression is not supported")
+            return ("expr", e, line, True)
         e = self.parse_expr(stmt=True)
         if self.accept(";"):
             return ("expr", e, line, True)
